@@ -162,7 +162,7 @@ def stmt_batch(task):
         elif layout == "shell":
             where = inner
         try:
-            c02.emit(where, where.d[domain], stmts, sigs)
+            c02.emit(where, "mixed" if domain == "mixed" else where.d[domain], stmts, sigs)
         except Exception:
             continue
         copies.append((stmts, sigs))
@@ -219,6 +219,7 @@ def stmt_batch(task):
     in_idx = sorted(c02.INPUTS)
     in_cat = Cat(*[ins[i] for i in in_idx])
     out_cat = Cat(*outs)
+    u_cat = Cat(*[sigs[c02.U] for _s, sigs in copies])
     tot_w = sum(c02.DRIVEN[i][0] for i in drv_idx)
     states = [None] if domain == "comb" else [tuple(c02.DRIVEN[i][2] for i in drv_idx), (0, 0), (15, -1), (0b1010, 2)]
 
@@ -233,9 +234,12 @@ def stmt_batch(task):
                 for n in range(len(copies)):
                     allst |= one << (n * tot_w)
                 poke = {}
+                u_all = 0
                 for n in range(len(copies)):
                     for i, v in zip(drv_idx, st):
-                        poke[f"m{n}_{i}"] = R.bits_of(v, c02.DRIVEN[i][0])
+                        if domain != "mixed" or i == c02.U:
+                            poke[f"m{n}_{i}"] = R.bits_of(v, c02.DRIVEN[i][0])
+                    u_all |= R.bits_of(st[drv_idx.index(c02.U)], c02.DRIVEN[c02.U][0]) << (n * c02.DRIVEN[c02.U][0])
             for vals in itertools.product(*[R.values_of(*c02.INPUTS[i]) if i in used else [0] for i in in_idx]):
                 packed, off = 0, 0
                 for i, v in zip(in_idx, vals):
@@ -244,7 +248,10 @@ def stmt_batch(task):
                 ctx.set(in_cat, packed)
                 inputs = {f"in{i}": R.bits_of(v, c02.INPUTS[i][0]) for i, v in zip(in_idx, vals)}
                 if st is not None:
-                    ctx.set(out_cat, allst)
+                    if domain == "mixed":
+                        ctx.set(u_cat, u_all)          # only u is a register in a mixed module; t is combinational
+                    else:
+                        ctx.set(out_cat, allst)
                     it.poke_all(poke)
                     it.set(inputs)
                     ctx.set(cd.clk, 1)
@@ -615,6 +622,15 @@ def run(rep):
         sel = ms[::2] if not rep.quick else ms[::12]
         for n, ch in enumerate(chunks(sel, max(4, size // 3))):
             tasks.append(("stmt", (ch, "sync", ("deep", "shell", "flat", "child")[n % 4])))
+    # one control-flow structure driving a combinational and a synchronous signal (bodies empty for one of the domains)
+    mixed = c02.mixed_terms()
+    groups = {}
+    for mo in mixed:
+        groups.setdefault(tuple(sorted(c02.inputs_of(mo))), []).append(mo)
+    for key, ms in groups.items():
+        sel = ms if not rep.quick else ms[::3]
+        for n, ch in enumerate(chunks(sel, 60)):
+            tasks.append(("stmt", (ch, "mixed", ("flat", "shell", "child", "deep")[n % 4])))
     for name in (QUICK_SEQ if rep.quick else list(SEQ_DESIGNS)):
         tasks.append(("seq", (name, rep.pick(5, 10), rep.pick(700, 40000))))
     if only:
@@ -623,7 +639,7 @@ def run(rep):
     tasks = [t for t in tasks if t[0] == "seq"] + rotate([t for t in tasks if t[0] != "seq"], rep.seed)
     for part in pmap(_dispatch, tasks, rep.procs):
         rep.merge(part)
-    rep.setcov("rule", "programs = RTLIL documents converted from: expression batches (C01 term space), statement batches (C02 module-term space, flat, "
+    rep.setcov("rule", "programs = RTLIL documents converted from: expression batches (C01 term space), statement batches (C02 module-term space incl. the mixed comb/sync control-flow terms, flat, "
                "split over child/grandchild/sibling modules, and nested inside purely structural modules), sequential designs explored by joint BFS; every comparison point is one "
                "(output or register, stimulus) pair; disagreements_checked counts the points where simulator and RTLIL differed (each triaged "
                "against the reference semantics and the recorded $shift finding)")
